@@ -124,6 +124,17 @@ func run(e *hx.Env) *hx.Report {
 		rep.Case(strings.Join(fr[name], "\n"), r.Nontriv)
 		rep.Hit("history:fresh-systematic")
 	}
+	// ---- systematic: the same process syncs the same desired state twice, the kernel drifted in between
+	dh := policy.DriftHistories()
+	for _, name := range hx.SortedKeys(dh) {
+		r, err := runOps(e, rep, name, dh[name])
+		if err != nil {
+			rep.Disagree = append(rep.Disagree, hx.Disagreement{Where: "drift-history", Model: err.Error()})
+			continue
+		}
+		rep.Case(strings.Join(dh[name], "\n"), r.Nontriv)
+		rep.Hit("history:drift-systematic")
+	}
 	n := e.N(120, 4000)
 	for i := 0; i < n; i++ {
 		ops := policy.GenHistory(e.Rng)
